@@ -202,8 +202,13 @@ impl Property for C01 {
             spec_ops: true,
             ctx_dependent: true,
             max_variadic: rng.range(0, 3),
+            giant: true,
         };
         let mut stream = gen_stream(rng, cfg);
+        if rng.chance(1, 6) {
+            // OpExtInst of a known / non-semantic / unknown set inside a block (it must stay there)
+            crate::producer::plant_ext_inst(rng, &mut stream);
+        }
         let mut reorders = vec![];
         let style = rng.below(4); // 0: keep layout order
         if style != 0 {
@@ -615,7 +620,12 @@ impl Property for C01 {
             out.push(c);
         }
         let n = t.stream.insts.len();
-        for j in (0..n).rev() {
+        for (a, b) in shrink_chunks(n) {
+            let mut c = t.clone();
+            c.stream.insts.drain(a..b);
+            out.push(c);
+        }
+        for j in shrink_indices(n) {
             let mut c = t.clone();
             c.stream.insts.remove(j);
             out.push(c);
@@ -633,7 +643,7 @@ impl Property for C01 {
             }
             k += 1;
         }
-        for j in 0..n {
+        for j in 0..n.min(300) {
             for (k, o) in t.stream.insts[j].ops.iter().enumerate() {
                 if let MOp::S(st) = o {
                     if !st.is_empty() {
